@@ -7,7 +7,7 @@
 //
 //	import "sync"      → sync "falcosim/sim/simsync"     interpreter/…, linter/…, snippet/…
 //	import "os/exec"   → exec "falcosim/sim/simexec"     linter/…
-//	go f(x)            → simhook.Go(func() { f(x) })     linter/…, snippet/…
+//	go f(x)            → simhook.Go(func() { f(x) })     linter/…, snippet/…, interpreter/… (none there today)
 //	eg.Go(f)           → eg.Go(simhook.WrapErr(f))       snippet/… (errgroup)
 //	first statement simhook.Yield("<func>")              fixed list of functions
 //	range m (m a map)  → range simmap.Sorted(m)          linter/…, linter/context, snippet/…  (typed)
@@ -143,7 +143,7 @@ func main() {
 			}
 
 			// go statements and errgroup Go, map ranges
-			if top == "linter" || top == "snippet" {
+			if top == "linter" || top == "snippet" || top == "interpreter" {
 				rewriteStmtLists(f, func(list []ast.Stmt) []ast.Stmt {
 					for i, st := range list {
 						switch t := st.(type) {
